@@ -40,21 +40,28 @@ theorem pollBackup_gone (s : State) (b : Bool) (c : Nat) (rq : Request) (k t : N
   show (if s.now ≥ t ∧ out ≠ .never then _ else _) = _
   split <;> rfl
 
-theorem startBackup_gone (s : State) (b : Bool) (c : Nat) (rq : Request) (bk : Step) :
-    startBackup (withGone s b) c rq bk = withGone (startBackup s c rq bk) b := by
+theorem callBackup_gone (s : State) (b : Bool) (c : Nat) (rq : Request) (bk : Step) :
+    callBackup (withGone s b) c rq bk = withGone (callBackup s c rq bk) b := by
   exact pollBackup_gone
     (setPhase (emit { s with serial := s.serial + 1 } [.backupCall c s.serial rq]) c (.backup rq s.serial (s.now + bk.lat) bk.out))
     b c rq s.serial (s.now + bk.lat) bk.out
 
-theorem continueWith_gone (s : State) (b : Bool) (c : Nat) (rq : Request) (bk : Step) (nx : Next) :
-    continueWith (withGone s b) c rq bk nx = withGone (continueWith s c rq bk nx) b := by
+theorem startBackup_gone (cfg : Cfg) (s : State) (b : Bool) (c : Nat) (rq : Request) (bk : Step) :
+    startBackup cfg (withGone s b) c rq bk = withGone (startBackup cfg s c rq bk) b := by
+  by_cases h : answer cfg.bready (s.brdy + pendingRun (cfg.bready.drop s.brdy)) = .error
+  · rw [startBackup_error (s := withGone s b) h, startBackup_error h]; rfl
+  · rw [startBackup_ready (s := withGone s b) h, startBackup_ready h]
+    exact callBackup_gone { s with brdy := s.brdy + pendingRun (cfg.bready.drop s.brdy) + 1 } b c rq bk
+
+theorem continueWith_gone (cfg : Cfg) (s : State) (b : Bool) (c : Nat) (rq : Request) (bk : Step) (nx : Next) :
+    continueWith cfg (withGone s b) c rq bk nx = withGone (continueWith cfg s c rq bk nx) b := by
   cases nx with
   | fin => rfl
-  | toBackup => exact startBackup_gone s b c rq bk
+  | toBackup => exact startBackup_gone cfg s b c rq bk
 
 theorem completeInner_gone (cfg : Cfg) (s : State) (b : Bool) (c : Nat) (rq : Request) (k : Nat) (out : Out)
     (bk : Step) : completeInner cfg (withGone s b) c rq k out bk = withGone (completeInner cfg s c rq k out bk) b := by
-  exact continueWith_gone
+  exact continueWith_gone cfg
     (emit { s with fnCalls := s.fnCalls + (completionInner cfg c rq s.fnCalls k out).1.countP isValueFn }
       (completionInner cfg c rq s.fnCalls k out).1)
     b c rq bk (completionInner cfg c rq s.fnCalls k out).2
